@@ -49,6 +49,8 @@ def source_tie(ctx):
 
 def model_case(reg, u, redirect, sub, salt):
     """the registration record as stored, the hash and host tables the model needs, and the sub the grant got"""
+    if not isinstance(salt, str):
+        salt = "{}".format(salt)        # an unpinned salt is bytes; the sub functions format it into the text they hash
     st = reg.get("subject_type") or "public"
     srcs = [x for x in (reg.get("sector_id"), reg.get("sector_identifier_uri"), redirect) if x]
     hosts = [(x, host(x)) for x in srcs]
@@ -153,7 +155,18 @@ def handover(ctx, cases):
     over = {"client_1": {"subject_type": "pairwise", "sector_identifier_uri": SECTORS[1]},
             "client_2": {"subject_type": "public"},
             "client_12": {"subject_type": "pairwise", "sector_id": SECTORS[2]}}
-    rs1 = sess.RealSession(oidc=True, jwt_access=False, client_over=copy.deepcopy(over))
+    # no session salt / password pinned in the configuration (the default): the instances draw their own and the
+    # dumped state carries the first one's
+    old_mk = srv.make_server
+
+    def mk(*a, **k):
+        k.setdefault("pinned", False)
+        return old_mk(*a, **k)
+    srv.make_server = mk
+    try:
+        rs1 = sess.RealSession(oidc=True, jwt_access=False, client_over=copy.deepcopy(over))
+    finally:
+        srv.make_server = old_mk
     rs2 = None
     try:
         before = {}
@@ -163,7 +176,11 @@ def handover(ctx, cases):
                 if o[0] == "ok" and o[1]:
                     before[(u, c)] = rs1.grants[rs1.tok_grant[o[1][0]]][1].sub
         state = rs1.sm.dump()
-        rs2 = sess.RealSession(oidc=True, jwt_access=False, client_over=copy.deepcopy(over))
+        srv.make_server = mk
+        try:
+            rs2 = sess.RealSession(oidc=True, jwt_access=False, client_over=copy.deepcopy(over))
+        finally:
+            srv.make_server = old_mk
         rs2.sm.load(copy.deepcopy(state))
         salt2 = rs2.sm.get_salt()
         for (u, c), sub1 in before.items():
